@@ -149,12 +149,26 @@ def run_case(case, drv):
         res.corr += 1
         diff = F.same(Dx, M)
         agrees = not diff
+        if diff and scope:
+            # colliding names: which subsets get merged depends on set-iteration order, which the bug-compatible
+            # model cannot always follow; the defect is attributed to the naming scheme (KF-C01-1) exactly when
+            # the same automaton with injectively renamed (clean) states is determinised correctly
+            kspec = dict(spec)
+            kspec["svals"] = ["q%d" % i for i in range(len(spec["svals"]))]
+            st_k, Dk = outcome(lambda: F.build(kspec).to_deterministic())
+            if st_k == "ok":
+                dk = drv.call("fa.diff", A=A, B=F.renumber(F.extract_named(Dk, ycodes)))
+                if dk["equiv"]:
+                    agrees = True
+                    res.tag("attributed_by_renaming")
         ok = check_equiv(res, drv, "to_deterministic", A, F.renumber(Dx), scope, agrees)
         res.evals += 1
         if not (isinstance(D, DeterministicFiniteAutomaton) and F.structurally_deterministic(Dx)):
             res.violation("to_deterministic", "result is not deterministic", scope=scope, model_agrees=agrees)
             ok = False
-        if diff and ok:
+        if diff and ok and scope:
+            res.tag("structure_differs_under_colliding_names")
+        elif diff and ok:
             res.corr_break("to_deterministic", "structure differs from model: %s" % diff,
                            detail={"impl": Dx, "model": M})
     # ---- copy ------------------------------------------------------------------
